@@ -51,6 +51,14 @@ NEEDS = {
  "C14-d": ("C14", "is_accepting() keeps a one-entry cache in SharedState (shared by plain clones) keyed by lexer state / row / pending bytes: a clone at the same row with a different history gets its sibling's answer (EOS bit, stop); needs sibling histories of equal length differing in acceptance and the sibling's query last", ["C14"]),
  "C16-d": ("C16", "greedy_tokenize resumes after the longest trie path instead of the longest token: bytes between them are dropped when a proper prefix of a token is not itself a token and the text leaves that path", ["C16"]),
  "C18-d": ("C18", "same site as C12-d, found independently: rollback over a secondary EOS rewinds the parser behind the committed tokens or fails permanently", ["C18", "C12"]),
+ "C01-e": ("C01", "validate_tokens: applied_idx also advances for speculatively pushed bytes, so the EOS test fails later in the same call: validate_tokens([.., t, EOS]) stops short of an EOS that is in the mask and commits; needs a multi-token validate call with EOS at position >= 1 after a non-forced byte", ["C01"]),
+ "C02-e": ("C02", "check_subsume caches positive (lexeme, slice) answers ignoring the lexeme's current derivative: once a slice was subsumed, its whole token mask is ORed in for every later state of that lexeme (after a backslash in a JSON string, near maxLength); the mask allows tokens byte-wise feeding rejects", ["C02", "C10", "C01"]),
+ "C04-e": ("C04", "check_subsume tests slice containment against each lexeme's original regex instead of its current derivative: with slices on, a regex that starts with a broad repeated class keeps allowing the slice's tokens after the lexeme moved past it ([^\"]*\"[a-z]+, \\s*[0-9]+)", ["C04", "C10"]),
+ "C05-e": ("C05", "add_unique_arg drops the parameter from the Earley-item uniqueness key: the same dotted rule with the same origin cannot sit in one set with two parameter values, so parametric grammars under-accept (start: x::1 | x::2)", ["C05"]),
+ "C15-e": ("C15", "expand_shortcuts tests the referencing rule's condition instead of the inlined symbol's own: a symbol whose only rule is guarded (%if) and that is referenced once with the unchanged parameter is inlined without its guard", ["C15"]),
+ "C17-e": ("C17", "llg_matcher_compute_mask returns early when a saved mask exists and llg_matcher_reset no longer clears it: compute_mask, reset, compute_mask, get_mask returns the pre-reset mask (each change alone is harmless)", ["C17"]),
+ "C19-e": ("C19", "compute_bias adds the token-reference ranges whenever the grammar has token references, also with a non-empty pending prefix: the special token is in the mask while forced text is still pending, and commit rejects it", ["C19"]),
+ "C20-e": ("C20", "ParamExpr::eval: the saturation test of incr([x:y]) only fires for fields starting at bit 0: a field ending at bit 64 overflows u64 (panic in the checked build, wrap otherwise), a mid-word field carries into its neighbour; needs an unguarded incr on such a field and enough commits to saturate it", ["C20", "C05"]),
 }
 ids = sys.argv[1:] or sorted(NEEDS)
 for sid in ids:
